@@ -15,11 +15,12 @@ What is abstracted (stated again at the theorems):
 * `released_portions` is empty when `preallocate` starts (it was drained into `to_push`), so the
   `released_portions.pop()` that follows every `self.pop()` there returns exactly the head released by that
   `pop`; `popP` returns it directly;
-* `CleanFreeList::get_nth_pop` / `len` (index arithmetic relying on `len`, `fragmented` and on all non-head
-  portions being full) are modelled by their specification, the `n`-th element of the pop sequence
-  `itemsOf portions` and its length (the unit tests `clean_nth_pop*` compare exactly these);
+* `CleanFreeList::get_nth_pop` / `len` are used here through their specification, the `n`-th element of the pop
+  sequence `itemsOf portions` and its length; `Store/FreeListNthPop.lean` mirrors their index arithmetic over
+  the Rust-order representation and proves it equal to that specification on well-shaped lists;
 * Rust panics (`unwrap` on an empty portion / on exhausted `new_pages`, the `assert!`s of `push` and
-  `push_and_encode`) and exhaustion of the loop fuel make the model answer `none`;
+  `push_and_encode`) and exhaustion of the loop fuel make the model answer `none` (`Store/FreeListTotal.lean`:
+  never on well-shaped lists, for every capacity ≥ 2);
 * `usize` arithmetic is natural-number arithmetic (`MAX - len` truncates instead of overflowing), file growth
   (`max_bump`, `grow`) and the atomics of the allocation counter are not modelled: allocation indices are
   `0 … allocations-1`.
